@@ -125,6 +125,19 @@ def run(ctx):
             if not okn:
                 r3["len"] = False
                 r3why["len"] = "length of the new vector is %s, not len(ss) or self.id+1" % show(n)
+            elif n0[0] == "call":
+                # the old length is kept: only allowed when self.id < len(ss) was established on this path
+                est = False
+                for c, v, bb in p.decisions:
+                    if c[0] == "binop" and strip(c[2]) == sid and strip(c[3]) == n0 and \
+                            ((c[1] == "Lt" and v is True) or (c[1] == "Ge" and v is False)):
+                        est = True
+                    if c[0] == "binop" and strip(c[3]) == sid and strip(c[2]) == n0 and \
+                            ((c[1] == "Gt" and v is True) or (c[1] == "Le" and v is False)):
+                        est = True
+                if not est:
+                    r3["len"] = False
+                    r3why["len"] = "the new vector keeps the old length although self.id < len(ss) is not established on that path: the store at self.id can be out of range"
             copy_ok = None
         elif newv[0] == "clone" or (newv[0] == "call" and newv[1].endswith("to_vec")):
             copy_ok = True
